@@ -428,6 +428,7 @@ void oracle_value_equality(World&);             // C04 / C15
 void oracle_readback(World&);                   // C02
 void oracle_types(World&);                      // C09
 void oracle_categories(World&);                 // C06
+void oracle_storage_reuse(World&);              // C06: dispatch answers are a function of the node alone (storage recycled between nodes)
 void oracle_scopes(World&);                     // C07
 void oracle_regions(World&);                    // C12
 void oracle_accessors(World&, bool all);        // C14
